@@ -25,9 +25,15 @@ double __wrap_calcConvergence(dvector *a, dvector *b) { vx_tick(TICKKEY); return
 void __real_srand_(uint32_t); double __real_rand_(void); int __real_randInt(int, int); double __real_randDouble(double, double);
 void __wrap_srand_(uint32_t s) { __real_srand_(s); }
 static __thread int in_worker;
-double __wrap_rand_(void) { if (!in_worker) vx_tick(TICKKEY); return __real_rand_(); }
-int __wrap_randInt(int a, int b) { if (!in_worker) vx_tick(TICKKEY); return __real_randInt(a, b); }
-double __wrap_randDouble(double a, double b) { if (!in_worker) vx_tick(TICKKEY); return __real_randDouble(a, b); }
+/* draws made inside one of the library's worker threads (the fold generators run there): the explorer's tick longjmps and
+ * belongs to the main thread, so a worker counts on its own and, past the same ceiling, stops the process in a function whose
+ * name says what happened; the supervisor attributes the abort to the path and the replay reproduces it */
+static long wticks;
+static __attribute__((noinline)) void nonterminating_loop_in_worker_thread(void) { fprintf(stderr, "h_C18: more than %ld random draws inside one worker thread (%s)\n", vx_tick_ceiling, TICKKEY); abort(); }
+static void wtick(void) { if (__atomic_add_fetch(&wticks, 1, __ATOMIC_RELAXED) > vx_tick_ceiling) nonterminating_loop_in_worker_thread(); }
+double __wrap_rand_(void) { if (!in_worker) vx_tick(TICKKEY); else wtick(); return __real_rand_(); }
+int __wrap_randInt(int a, int b) { if (!in_worker) vx_tick(TICKKEY); else wtick(); return __real_randInt(a, b); }
+double __wrap_randDouble(double a, double b) { if (!in_worker) vx_tick(TICKKEY); else wtick(); return __real_randDouble(a, b); }
 int __real_pthread_create(pthread_t *, const pthread_attr_t *, void *(*)(void *), void *);
 struct tramp { void *(*fn)(void *); void *arg; };
 static void *tramp_fn(void *p) { struct tramp t = *(struct tramp *)p; free(p); in_worker = 1; return t.fn(t.arg); }
@@ -37,7 +43,7 @@ int __wrap_pthread_create(pthread_t *t, const pthread_attr_t *a, void *(*fn)(voi
   return __real_pthread_create(t, a, tramp_fn, tr);
 }
 void __wrap_GetNProcessor(size_t *on, size_t *mx) { if (on) *on = 1; if (mx) *mx = 1; }   /* the MT_ kernels run inline: no thread pool per NIPALS iteration */
-static void arm(const char *api, const char *cls) { snprintf(TICKKEY, sizeof TICKKEY, "nonterm|%s|%s", api, cls); vx_tick_reset(); }
+static void arm(const char *api, const char *cls) { snprintf(TICKKEY, sizeof TICKKEY, "nonterm|%s|%s", api, cls); vx_tick_reset(); wticks = 0; }
 
 /* ---------------------------------------------------------------- helpers */
 static matrix *from_digits(long code, int r, int c, int base, int pert) {
